@@ -50,6 +50,19 @@ import (
 // them the wrong way round.
 const ClassNegPrefix = "packed-order-negative-digit-prefix"
 
+// ClassReciprocal: the constant folder turns "c / x" (constant numerator) into
+// a product whose first factor is the unary reciprocal node; the compiler
+// generates code for that node but ast.Unary.eval has no case for it and
+// asserts ("should not reach here"): every query expression that divides a
+// constant by a non-constant fails.
+const ClassReciprocal = "query-eval-of-constant-divided-by-expression-asserts"
+
+// ClassBeyond16: both results are numbers that agree when rounded to the 16
+// digits of a decimal but differ as values: x - y is computed by the query
+// evaluator as x + (-y) (exact in int64 when y converts to the integer 0)
+// and by the language as a decimal subtraction (rounded), for |x| >= 10^16.
+const ClassBeyond16 = "integer-beyond-16-digits-sub-as-add-of-negation"
+
 // alphabet: literal source text of each value.
 var alphabet = []string{
 	"0", "1", "-1", "2", "10", "-10", "100", "9223372036854775807",
@@ -257,8 +270,11 @@ func (ev *evaluator) fn(text string) core.Value {
 }
 
 func (ev *evaluator) lang(text string, i, j int) result {
-	f := ev.fn(text)
-	return try(func() core.Value { return ev.th.Call(f, ev.vals[i], ev.vals[j]) })
+	r := try(func() core.Value { return ev.th.Call(ev.fn(text), ev.vals[i], ev.vals[j]) })
+	if r.err != "" {
+		ev.th.Reset() // an exception leaves the interpreter stack as it was
+	}
+	return r
 }
 
 func isNum(v core.Value) bool { return v.Type() == types.Number }
@@ -282,6 +298,14 @@ func negPrefix(x, y core.Value) bool {
 	sx := strings.TrimRight(fmt.Sprint(dx.Coef()), "0")
 	sy := strings.TrimRight(fmt.Sprint(dy.Coef()), "0")
 	return strings.HasPrefix(sx, sy) || strings.HasPrefix(sy, sx)
+}
+
+// agree16: both numbers, equal after conversion to a 16 digit decimal.
+func agree16(x, y result) bool {
+	if x.err != "" || y.err != "" || !isNum(x.v) || !isNum(y.v) {
+		return false
+	}
+	return dnum.Compare(core.ToDnum(x.v), core.ToDnum(y.v)) == 0
 }
 
 type failCase struct {
@@ -335,6 +359,9 @@ func (ev *evaluator) check(c *lib.Ctx, e expr, triage bool) {
 			}
 			ctx := &ast.RowContext{Th: ev.th, Hdr: ev.hdr, Row: row}
 			plain := try(func() core.Value { return plainE.Eval(ctx) })
+			if plain.err != "" {
+				ev.th.Reset()
+			}
 			var raw result
 			if len(rawE.(*ast.Nary).Exprs) == 1 {
 				// the wrapped single expression: evaluate the expression itself
@@ -342,6 +369,9 @@ func (ev *evaluator) check(c *lib.Ctx, e expr, triage bool) {
 				raw = try(func() core.Value { return rawE.(*ast.Nary).Exprs[0].Eval(ctx) })
 			} else {
 				raw = try(func() core.Value { return rawE.Eval(ctx) })
+			}
+			if raw.err != "" {
+				ev.th.Reset()
 			}
 			c.Eval(3)
 			outcome := want.String()
@@ -356,8 +386,14 @@ func (ev *evaluator) check(c *lib.Ctx, e expr, triage bool) {
 			}
 			if !same(plain, want) || !same(raw, want) {
 				class := ""
-				if f1 && same(plain, want) {
+				switch {
+				case f1 && same(plain, want):
 					class = ClassNegPrefix
+				case want.err == "" && strings.Contains(e.Text, " / ") &&
+					strings.Contains(plain.err, "should not reach here") && strings.Contains(raw.err, "should not reach here"):
+					class = ClassReciprocal
+				case strings.Contains(e.Text, " - ") && agree16(want, plain) && agree16(want, raw):
+					class = ClassBeyond16
 				}
 				if class != "" && os.Getenv("VERIF_DEV_KNOWN") != "" {
 					c.Count("dev_known:"+class, 1)
